@@ -274,13 +274,15 @@ CHECKS["C02"] = dict(
 
 CHECKS["C18"] = dict(
     level="exploration",
-    jobs=lambda tier: [dict(name="c18", variant="o2", sources=["e_c18.c"] + RT)],
+    jobs=lambda tier: [dict(name="c18", variant="o2", sources=["e_c18.c"] + RT),
+                       dict(name="c18cfg", variant="o1", script=_c19.run_c18)],
     coverage=_cov("every byte string of length <= 3 (16.6 M) and every printable string of length 4 (78 M) classified by crypt_checksalt and by an "
                   "independent classifier; crypt_rn run on every string of length <= 3 and on the method-shaped length-4 strings; every "
                   "'$'+tag+'$' with tags of length <= 3 over 65 characters; every generated setting of the grammar (and each successful result); "
                   "every recognised string re-classified with 3 tails (1, 40 and 400 characters); crypt_preferred_method and NULL-prefix gensalt "
-                  "vs preferred-prefix gensalt for 50 entropy fills x 3 counts; distinct_nontrivial = distinct recognised short strings"),
-    assumptions=["the strong set is taken from the property text ($y$, $gy$, $7$, $2b$, $2y$, $2a$, $6$)", "configurations other than the full build are C19's subject"],
+                  "vs preferred-prefix gensalt for 50 entropy fills x 3 counts; job c18cfg repeats the preferred-method / checksalt requests in compiled "
+                  "hash selections; distinct_nontrivial = distinct recognised short strings"),
+    assumptions=["the strong set is taken from the property text ($y$, $gy$, $7$, $2b$, $2y$, $2a$, $6$)", "job c18cfg: 14 (quick) / 34 (thorough) compiled selections - every subset of the default-capable methods (yescrypt, bcrypt, sha512crypt) x backgrounds - compared on the requests C18 names (preferred method, its checksalt class, NULL-prefix generation, the header macro, checksalt of every method's settings); the remaining selections are C19's subject"],
     nonvacuous=lambda s, t: None if s.get("length4", 0) > 70000000 and s.get("crypt_calls", 0) > 1000000 and s.get("recognised", 0) > 100000 else "enumeration incomplete",
     deadline=dict(quick=300, thorough=1200),
     manifest=dict(
